@@ -207,6 +207,16 @@ chk("C08", "model_checking",
     "TLA+ spec StructFac.tla (exact orbit and phases) model-checked by TLC + explicit-sum oracle compared with StructureFactor",
     "DESIGN.md section 7 C08")
 
+chk("C16", "model_checking",
+    "FormFactor.tla holds the periodic table as its own constant and decides exactly, on the coefficient records exported from the tree "
+    "(integers x 10^6), for each of the 94 entries: |sum a_i + c - Z| <= 0.1, all b_i > 0, one entry per element, and the sign patterns "
+    "that settle monotonic decrease (all a_i b_i > 0) and positivity analytically. The exponentials TLC cannot evaluate are covered by "
+    "replay: FormFactor(el, s) against an independent evaluation of the exported record on a grid of s in [0, 2], with positivity and "
+    "monotonic decrease checked on that grid for every entry.",
+    "Trusted: TLC; 6-decimal export; grid evaluation for the entries whose sign pattern does not settle the claim analytically (B, N, Cl have c < 0: positivity is a grid fact).",
+    "TLA+ spec FormFactor.tla (exact integer decisions per entry) model-checked by TLC + grid replay of FormFactor",
+    "DESIGN.md section 7 C16")
+
 ALL = ["C%02d" % i for i in range(1, 21)]
 
 
